@@ -1938,12 +1938,26 @@ impl StorageEngine {
     }
     
     pub fn setrange(&self, db: DatabaseIndex, key: Key, offset: usize, value: Vec<u8>) -> Result<usize> {
+        // Same limit as Redis: the resulting string may not exceed 512 MB
+        const MAX_STRING_LEN: usize = 512 * 1024 * 1024;
+        match offset.checked_add(value.len()) {
+            Some(n) if n <= MAX_STRING_LEN => {}
+            _ => return Err(FerrousError::Command(CommandError::Generic(
+                "string exceeds maximum allowed size (512MB)".to_string()
+            ))),
+        }
+        
         let shard = self.get_shard(db, &key)?;
         let mut shard_guard = shard.write().unwrap();
         
         let new_len = if let Some(stored_value) = shard_guard.data.get_mut(&key) {
             match &mut stored_value.value {
                 Value::String(bytes) => {
+                    // An empty value changes nothing (no padding either)
+                    if value.is_empty() {
+                        return Ok(bytes.len());
+                    }
+                    
                     let required_len = offset + value.len();
                     if required_len > bytes.len() {
                         bytes.resize(required_len, 0);
@@ -1959,6 +1973,11 @@ impl StorageEngine {
                 _ => return Err(StorageError::WrongType.into()),
             }
         } else {
+            // An empty value does not create the key
+            if value.is_empty() {
+                return Ok(0);
+            }
+            
             // Create new string with padding
             let mut new_string = vec![0; offset + value.len()];
             new_string[offset..].copy_from_slice(&value);
